@@ -14,20 +14,39 @@
 
 const char *adapter_name = "lenp";
 
+static void lenp_nested(void);
 static unsigned char sinkrec[1 << 17];
 static size_t sinkn;
 static ssize_t snk_chunk(void *drv, const void *buf, size_t n)
 {
     (void)drv;
+    lenp_nested();
     if (sinkn + n > sizeof sinkrec) return -ENOMEM;
     memcpy(sinkrec + sinkn, buf, n);
     sinkn += n;
     return (ssize_t)n;
 }
 typedef struct { const unsigned char *p; size_t n, pos, frag; } Src;
+/* drivers that frame something else while they are being used (every second call): the framing functions are expected to be re-entrant */
+static int nest_depth;
+static unsigned nest_calls;
+static ssize_t void_chunk2(void *drv, const void *buf, size_t n) { (void)drv; (void)buf; return (ssize_t)n; }
+static void lenp_nested(void)
+{
+    if (nest_depth || (nest_calls++ % 2)) return;
+    static unsigned char pay[5] = { 9, 8, 7, 6, 5 };
+    Sink v = CHUNK_SINK_INIT(void_chunk2, NULL);
+    LengthPrefixBuffer lpb;
+    nest_depth++;
+    (void)flenp_memory_to_sink(LENP_VARIABLE, &v, pay, sizeof pay);
+    (void)flenp_memory_to_sink(LENP_BE_32BIT, &v, pay, sizeof pay);
+    (void)flenp_memory_encode(LENP_LE_16BIT, &lpb, pay, sizeof pay);
+    nest_depth--;
+}
 static ssize_t src_chunk(void *drv, void *buf, size_t n)
 {
     Src *s = drv;
+    lenp_nested();
     if (s->pos >= s->n) return -ENODATA;
     size_t d = n;
     if (d > s->frag) d = s->frag;
